@@ -518,6 +518,14 @@ func isKeyExists(err error) bool { return errors.Is(err, types.ErrKeyExists) }
 // Step executes op on the store and the model in lock-step and returns the
 // first disagreement.
 func (w *World) Step(op Op) *Violation {
+	v := w.step(op)
+	if w.ledger != nil && w.opened && v == nil {
+		w.ledger.noteCurrent(w)
+	}
+	return v
+}
+
+func (w *World) step(op Op) *Violation {
 	w.Trace = append(w.Trace, op)
 	w.FS.SetTag(len(w.Trace) - 1)
 	switch op.Kind {
